@@ -51,9 +51,16 @@ theorem blank_optBlock (kw t : Str) (bs : List Nat) : ∀ l ∈ optBlock (' ' ::
   · simp
   · exact blank_subblock kw t bs
 
+theorem refHeadLines_cons (i : Nat) (r : RRef) (ℓ : RefLayout) :
+    ∃ (c0 : Str) (conts : List Str), refHeadLines i r ℓ = (padRight c!"REFERENCE" 12 ++ c0) :: conts.map (spaces 12 ++ ·) := by
+  unfold refHeadLines; split
+  · exact ⟨ofNat (i + 1) ++ c!"  ", [], by simp [List.append_assoc]⟩
+  · rw [block_eq]; exact ⟨_, _, rfl⟩
+
 theorem blank_refLines_tail (i : Nat) (r : RRef) (ℓ : RefLayout) : ∀ l ∈ (refLines i r ℓ).drop 1, Blank l := by
+  obtain ⟨c0, conts, hsh⟩ := refHeadLines_cons i r ℓ
   unfold refLines
-  rw [block_eq]
+  rw [hsh]
   simp only [List.cons_append, List.drop_succ_cons, List.drop_zero]
   intro l hl
   simp only [List.mem_append] at hl
@@ -413,8 +420,9 @@ theorem refLines_eq (i : Nat) (r : RRef) (ℓ : RefLayout) :
     refLines i r ℓ = (refLines i r ℓ).headD [] :: (refLines i r ℓ).drop 1
       ∧ trimSpace (headOf (split ((refLines i r ℓ).headD []) c!" ")) = c!"REFERENCE"
       ∧ quickMetaCheck ((refLines i r ℓ).headD []) = .ok true := by
+  obtain ⟨c0, conts, hsh⟩ := refHeadLines_cons i r ℓ
   unfold refLines
-  rw [block_eq]
+  rw [hsh]
   simp only [List.cons_append, List.headD_cons, List.drop_succ_cons, List.drop_zero, true_and]
   exact kwLine_kw c!"REFERENCE" _ KwOK_reference
 
